@@ -185,6 +185,23 @@ type Resp struct {
 	Informational []int `json:"informational,omitempty"`
 }
 
+// The process-wide HTTP defaults as they were before any world replaced them (LIVE scenarios put
+// them back before they start).
+var (
+	origDefaultClient    = http.DefaultClient
+	origDefaultTransport = http.DefaultTransport
+)
+
+// RestoreHTTPDefaults reinstalls the real default client and transport.
+func RestoreHTTPDefaults() {
+	// only written when a world really replaced them (then no goroutine of the code under test is
+	// alive any more: the bubble has drained); between LIVE scenarios nothing is written
+	if http.DefaultClient != origDefaultClient {
+		http.DefaultClient = origDefaultClient
+		http.DefaultTransport = origDefaultTransport
+	}
+}
+
 // World is one scenario's universe. Create inside synctest.Test.
 type World struct {
 	T  *testing.T
@@ -1061,8 +1078,8 @@ func (w *World) Close() {
 	time.Sleep(3 * time.Hour)
 	server.VerifHook.Store(nil)
 	server.VerifDial.Store(nil)
-	http.DefaultClient = w.prevClient
-	http.DefaultTransport = w.prevTransport
+	// http.DefaultClient / http.DefaultTransport are deliberately not restored here: goroutines of the
+	// code under test may still read them until the bubble has drained; the next world replaces them
 	slog.SetDefault(w.prevLog)
 }
 
